@@ -232,4 +232,18 @@ PROPS = {
                 "ERRS after every write; non-trivial = rotation happened",
         "trusted": ["fault hook placement (add-only, in front of the fallible call)"],
     },
+    "C07": {
+        "level_text": "Kernel-checked, uniformly for all four namings, every criterion/capacity/suffix setting and every plain history with Cleanup (k,m): the survivors, read "
+                      "oldest->newest after decompression and followed by the current file, are EXACTLY the newest kk+m(+1) files of the uncleaned abstract log "
+                      "(cleanup_keeps_newest), hence a contiguous tail of the stream on record boundaries (cleanup_tail); at most kk plain and m compressed files, compressed ones "
+                      "older than every plain one (cleanup_bounds, gz_older_than_plain); compression is lossless: an original disappears only beyond the delete limit or with its "
+                      ".gz twin holding the same data (compress_lossless, rotation_lossless); the file being written is never removed or compressed (current_spared_every_step; "
+                      "witness that the k=0 bump for direct namings is necessary). Differential check with synchronous cleanup after every op incl. restarts and real gzip round trip.",
+        "level_note": "Proved for synchronous cleanup in a single run from an empty directory; the background cleanup thread is covered by the same final-state argument only "
+                      "informally (confluence: the last pass sees the whole directory) and by the thorough tier; restarts + cleanup: differential check. gz = tagged identity in the "
+                      "model, byte-exactness checked by decompression. Three known findings (index >= 100000, suffix sorting after 'restart', suffix-less files never compressed).",
+        "correspondence": "Flw model (listing/cleanupLoop) vs real cleanup incl. flate2 compression, SNAP after every write in direct mode",
+        "rule": "k,m in 0..3 x all namings x suffix present/absent x criteria x forced rotations x 0..2 restarts; non-trivial = rotation or restart happened",
+        "trusted": ["flate2 gzip round trip (checked by decompression)", "OS remove/create"],
+    },
 }
